@@ -198,6 +198,8 @@ def makeupFold (old : CVol) (suffix : List IEnt) (nowNs : Nat) (acc : Option Fil
 def makeup (s : CVol) (sn : Snap) (order : List Nat) (nowNs : Nat) : Option Files :=
   if s.ilog.length = 0 ∨ s.ilog.length ≤ sn.idxLen then some (sn.log, sn.ats, sn.cpx)
   else if s.rev ≠ sn.rev then none
+  else if sn.idxLen = 0 then none   -- the backward loop `uint64(idxOffset) >= lastCompactIndexOffset` never ends at 0:
+                                    -- readIndexEntryAtOffset(-16) fails ⇒ makeupDiff fails ⇒ the compaction is discarded
   else makeupFold s (s.ilog.drop sn.idxLen) nowNs (some (sn.log, sn.ats, sn.cpx)) order
 
 def delIdx (kind : Kind) (m : Nat → Option Ent) (k : Nat) : Nat → Option Ent :=
